@@ -103,6 +103,8 @@ def run(ctx):
     for k, s in enumerate(systems):
         pt = U.gen_point(s, rng)
         ind = U.render(s, style=rng.choice([0, 1, 2]), rng=random.Random(k))
+        if rng.random() < 0.3:      # a non-default name for the step size (the workers analyse many systems per interpreter, under different names)
+            ind.setdefault("options", {})["output_timestep_symbol"] = rng.choice(["dt", "Delta", "h_", "__dt"])
         tasks.append({"fn": "sysimpl.run_c01", "indict": ind, "point": c02.point_names(s, pt), "pseed": rng.randint(1, 10 ** 6), "api_timeout": 30, "timeout": 150})
         meta.append((s, pt))
     res = C.run_tasks(tasks, timeout=150)
@@ -154,7 +156,10 @@ def run(ctx):
                 n, U.cshapes(s), U.crho(s, pt), C.clist([C.cbool(b) for b in keep]), U.cq(Fraction(r["h"])), C.clist(qP), C.clist([U.cq(Fraction(v)) for v in r["upd"]])))
             info.append({"indict": t["indict"], "analytic": av, "update_expressions": r["update_expressions"]})
             dist["n_analytic"][str(len(av))] = dist["n_analytic"].get(str(len(av)), 0) + 1
-            if any("__h *" in e or "__h*" in e for e in r["update_expressions"].values()) or any(not any(a[0] == "v" for a, _ in tm["pows"]) for e in s["entries"] for tm in e["rhs"]):
+            hsym_ = (t["indict"].get("options") or {}).get("output_timestep_symbol", "__h")
+            dist["step_symbols"] = dist.get("step_symbols", {})
+            dist["step_symbols"][hsym_] = dist["step_symbols"].get(hsym_, 0) + 1
+            if any(hsym_ + " *" in e or hsym_ + "*" in e for e in r["update_expressions"].values()) or any(not any(a[0] == "v" for a, _ in tm["pows"]) for e in s["entries"] for tm in e["rhs"]):
                 dist["with_offset"] += 1
             nontriv.add(C.stable_hash(t["indict"]))
             pr = r.get("probe", {})
